@@ -320,7 +320,7 @@ def run_case(case):
 
 def gen_cases(tier, seed):
     plans = []
-    n = 240 if tier == "quick" else 6000
+    n = 240 if tier == "quick" else 30000
     for i in range(n):
         backends = ["memory", "pathio", "async"] if i % 4 == 0 else ["memory", "pathio"]
         plans.append({"kind": "ftp", "seed": seed * 100003 + i, "length": 16, "backends": backends})
@@ -341,7 +341,7 @@ def gen_cases(tier, seed):
     ]
     for j, seq in enumerate(targeted):
         plans.append({"kind": "ftp", "seed": seed + j, "length": 0, "seq": [list(x) for x in seq], "backends": ["memory", "pathio", "async"]})
-    for i in range(60 if tier == "quick" else 1500):
+    for i in range(60 if tier == "quick" else 8000):
         plans.append({"kind": "api", "seed": seed * 7777 + i, "length": 40})
     per = 6
     return [{"plans": plans[i:i + per]} for i in range(0, len(plans), per)]
